@@ -154,9 +154,9 @@ type DocOpts struct {
 
 // GenResult is a generated logical document plus the oracle's view.
 type GenResult struct {
-	Doc   *Doc
-	Fonts []*GenFont
-	Tok   *fw.Tokens
+	Doc      *Doc
+	Fonts    []*GenFont
+	Tok      *fw.Tokens
 	nextNode int
 }
 
@@ -382,21 +382,21 @@ func max1(n int) int {
 // RandomLayout draws a layout vector.
 func RandomLayout(r *rand.Rand, revs int) Layout {
 	l := Layout{
-		EOL:       []string{"\n", "\r\n", "\r"}[r.Intn(3)],
-		Tight:     r.Intn(3) == 0,
-		ObjStm:    []string{"none", "some", "all"}[r.Intn(3)],
-		LenMode:   []string{"direct", "ind-before", "ind-after", "ind-objstm", "mixed"}[r.Intn(5)],
-		Filter:    []string{"none", "Fl", "AHx", "A85", "FlPNG", "A85Fl", "AHxFl", "chain3", "mixed"}[r.Intn(9)],
-		Split:     1 + r.Intn(4),
-		SplitNoWS: r.Intn(3) == 0,
-		Numbering: []string{"dense", "sparse", "permuted"}[r.Intn(3)],
-		Shuffle:   r.Intn(2) == 0,
-		ResIndirect: r.Intn(2) == 0,
+		EOL:                   []string{"\n", "\r\n", "\r"}[r.Intn(3)],
+		Tight:                 r.Intn(3) == 0,
+		ObjStm:                []string{"none", "some", "all"}[r.Intn(3)],
+		LenMode:               []string{"direct", "ind-before", "ind-after", "ind-objstm", "mixed"}[r.Intn(5)],
+		Filter:                []string{"none", "Fl", "AHx", "A85", "FlPNG", "A85Fl", "AHxFl", "chain3", "mixed"}[r.Intn(9)],
+		Split:                 1 + r.Intn(4),
+		SplitNoWS:             r.Intn(3) == 0,
+		Numbering:             []string{"dense", "sparse", "permuted"}[r.Intn(3)],
+		Shuffle:               r.Intn(2) == 0,
+		ResIndirect:           r.Intn(2) == 0,
 		ContentsArrayIndirect: r.Intn(3) == 0,
-		XRefPredictor: r.Intn(2) == 0,
-		GapsAsFree: r.Intn(3) == 0,
-		ObjStmExtends: r.Intn(3) == 0,
-		Comments: r.Intn(3) == 0, Quotes: r.Intn(3) == 0, TJKern: r.Intn(3) == 0, Forms: r.Intn(3) == 0,
+		XRefPredictor:         r.Intn(2) == 0,
+		GapsAsFree:            r.Intn(3) == 0,
+		ObjStmExtends:         r.Intn(3) == 0,
+		Comments:              r.Intn(3) == 0, Quotes: r.Intn(3) == 0, TJKern: r.Intn(3) == 0, Forms: r.Intn(3) == 0,
 		BoxIndirect: r.Intn(4) == 0,
 	}
 	switch r.Intn(4) {
